@@ -36,3 +36,9 @@ CLAIMS["C01"] = ("abstract byte-width dataflow of the fixed-width setters, write
  "residues (complete finite abstraction), Message Length bookkeeping in append/refresh/dump/_load, Grouped data as concatenation "
  "through append, and 3/4-octet command code / application id in all 50 typed classes. Necessary conditions; equality of the data "
  "bytes with a reference encoder for particular values is not decided.", "DESIGN.md section 4, C01")
+CLAIMS["C02"] = ("def-use flow of the wire fields in DiameterAVP.load, identity-lattice path enumeration of every constructor on its bytes path, splitter shape and registry key-order table checks",
+ "Every wire field not determined by the dispatch key must flow into the decoded object; all 11 type constructors and all 207 AVP "
+ "constructors (incl. parser_data/encode overrides) keep a bytes argument unchanged on every path; the splitter builds and appends "
+ "exactly one message per iteration from the slices named by the parsed header with loaded=True; registry writer and reader agree on "
+ "[vendor][code]; every dictionary class is a direct subclass. Necessary conditions; byte equality of re-serialisation per input is "
+ "not decided. The dropped wire flags are a listed known finding.", "DESIGN.md section 4, C02")
